@@ -206,7 +206,7 @@ def gen():
         st.tuples(st.just("seed"), st.integers(0, 100)),
         st.tuples(st.just("drop_rebuild_subset"), st.integers(0, 60), st.booleans()),
     ).map(list)
-    return st.fixed_dictionaries({"spec": gg.spec_strategy(min_nodes=3, max_nodes=10, allow_groups=True), "build_copy": st.booleans(),
+    return st.fixed_dictionaries({"spec": gg.spec_strategy(min_nodes=3, max_nodes=10, allow_groups=True, allow_own_key=True), "build_copy": st.booleans(),
                                   "roots_only": st.booleans(), "ops": st.lists(op, min_size=1, max_size=12)})
 
 
